@@ -12,6 +12,8 @@ type VerifEntry struct {
 	Deleted bool
 	Service *structs.NodeService
 	Check   *structs.HealthCheck
+	// Deferred: an output-only update of the check is waiting for its delayed write-back
+	Deferred bool
 }
 
 // VerifDump returns the raw bookkeeping tables of the local state.
@@ -23,7 +25,7 @@ func VerifDump(l *State) (services map[string]VerifEntry, checks map[string]Veri
 		services[id.ID] = VerifEntry{InSync: s.InSync, Deleted: s.Deleted, Service: s.Service}
 	}
 	for id, c := range l.checks {
-		checks[string(id.ID)] = VerifEntry{InSync: c.InSync, Deleted: c.Deleted, Check: c.Check}
+		checks[string(id.ID)] = VerifEntry{InSync: c.InSync, Deleted: c.Deleted, Check: c.Check, Deferred: c.DeferCheck != nil}
 	}
 	return services, checks, l.nodeInfoInSync
 }
